@@ -84,6 +84,9 @@ class Gen:
             fs = sc.of_type("fn1")
             f = r.choice(fs) if fs else "(q => q * 2)"
             return "(%s into %s)" % (self.num(sc, d - 1), f)
+        if r.chance(1, 2):
+            self.note("aggregate")
+            return "%s(%s)" % (r.choice(["len", "sum", "min", "max", "avg", "median", "prod"]), self.numlist(sc, d - 1))
         self.note("coalesce")
         return "(%s ?? %s)" % (r.choice(["null", self.num(sc, d - 1)]), self.num(sc, d - 1))
 
@@ -151,6 +154,13 @@ class Gen:
         if k == 7:
             self.note("spread")
             return "[...%s, %s]" % (self.numlist(sc, d - 1), self.num(sc, d - 1))
+        if r.chance(1, 2):
+            self.note("listfn")
+            k2 = r.below(8)
+            l1 = self.numlist(sc, d - 1)
+            return ["sort(%s)" % l1, "reverse(%s)" % l1, "unique(%s)" % l1, "concat(%s, %s)" % (l1, self.numlist(sc, 0)),
+                    "range(%s)" % r.choice(["3", "1, 4", "0"]), "flatten([%s, [7]])" % l1,
+                    "sort_by(%s, %s)" % (l1, self.fn1(sc, 0)), "slice(%s, 0, 1)" % l1][k2]
         return "[%s, %s]" % (self.num(sc, d - 1), self.num(sc, d - 1))
 
     def record(self, sc, d):
